@@ -33,3 +33,7 @@ def run(ctx):
     ]
     ctx.build_harness = lambda name, tags="verif": asttables.build_harness_overlay(ctx, name)
     common.standard(ctx, "GopModel.Props.C18", "c18", 2000, 20000, RULE, extract=("walk",), driver="drv_ast")
+
+
+def replay(ctx, obj):
+    return asttables.replay(ctx, obj, 3)   # walk <m> <recipe>
